@@ -63,7 +63,14 @@ fn exec_transcript(file: &File, tree: &Tree, source: &str, globals: &BTreeMap<St
         let config = ExecutionConfig::new(functions, &vars).lazy(lazy);
         match file.execute(tree, source, &config, &NoCancellation) {
             Ok(g) => match observe_graph(&g, &ti) {
-                Ok(og) => format!("GRAPH {}", og.to_json()),
+                Ok(og) => {
+                    // plus the order in which the pretty-printed form lists nodes, edges and
+                    // attribute names (values are left out: sets of syntax nodes print in
+                    // address order)
+                    let pretty = g.pretty_print().to_string();
+                    let order: Vec<&str> = pretty.lines().map(|l| if l.starts_with("  ") { l.split(": ").next().unwrap_or(l) } else { l }).collect();
+                    format!("GRAPH {} PRETTY-ORDER {:016x}", og.to_json(), hash_str(&order.join("\n")))
+                }
                 Err(e) => format!("UNREADABLE {}", e),
             },
             Err(e) => format!("ERROR {}", e),
@@ -104,10 +111,15 @@ fn exec_with_flag(file: &File, tree: &Tree, source: &str, globals: &BTreeMap<Str
 
 /// programs where "which error is reported" has room to vary
 fn special_text(rng: &mut Rng) -> (String, &'static str) {
-    match rng.below(7) {
+    match rng.below(9) {
         6 => (
             "(identifier) @id { node n attr (n) idx = (named-child-index @id), txt = (source-text @id), cnt = (named-child-count @id) }\n(argument_list (_) @arg) { node m attr (m) arg_idx = (named-child-index @arg), ty = (node-type @arg) }\n".into(),
             "syntax_functions_on_every_node",
+        ),
+        7 => ("(module) @m { node n attr (n) Kind = 1, kind = 2, KIND = 3, kinD = 4, name = 5, Name = 6 node k edge n -> k attr (n -> k) Ab = 1, aB = 2, ab = 3 print @m }\n".into(), "attribute_names_differing_in_case"),
+        8 => (
+            "(module) @m { node n attr (n) a = (node), b = (node), c = (node), d = (node) let x = (node) let y = (node) attr (n) f = y, e = x attr ((node)) g = (node), h = (node) print @m }\n".into(),
+            "node_creating_values_in_one_statement",
         ),
         0 => ("(call function: (_) @zeta arguments: (_) @alpha) @mid { node n }\n".into(), "several_unused_captures"),
         1 => ("(assignment left: (_) @l right: (_) @r) @a { node n }\n(identifier) @q @p { node m }\n".into(), "several_unused_captures"),
@@ -265,8 +277,15 @@ impl Prop for C12 {
                 return;
             }
             // repeated on the shared file
+            let mut heavy = false;
             for rep in 0..3 {
+                let started = std::time::Instant::now();
                 let t = exec_transcript(&file, &trees[0], &c.sources[0], &c.globals, &functions, lazy);
+                // a single execution that takes long gets the short history only (the watchdog of
+                // this harness is CPU time per case)
+                if started.elapsed().as_millis() > 120 {
+                    heavy = true;
+                }
                 out.eval();
                 if t != reference[0] {
                     out.violation(&format!("C12:repetition-differs:{}", mode), &format!("execution #{} of one loaded file differs from an isolated run: {:?} vs {:?}", rep + 1, crate::util::trunc(&t, 300), crate::util::trunc(&reference[0], 300)), cj());
@@ -306,6 +325,10 @@ impl Prop for C12 {
                     out.violation(&format!("C12:concurrent-differs:{}", mode), &format!("a concurrent execution on tree {} differs from the isolated run: {:?} vs {:?}", i, crate::util::trunc(&t, 300), crate::util::trunc(&reference[i], 300)), cj());
                     return;
                 }
+            }
+            if heavy {
+                out.feat("slow_execution_short_history_only");
+                continue;
             }
             // a sequence of short-lived trees (addresses get recycled): every execution must equal
             // a run made in a fresh thread (fresh thread-local state) on its own parse
